@@ -1,9 +1,14 @@
 (* C06 — every stored object is constructed once, destroyed once, never clobbered alive.
-   PARTIAL: element-level theorems for every parameter list; the invariant over whole
-   histories is proved for trivially relocatable lists only (where it is the C01
-   refinement: no object has a lifetime to manage); histories over non-trivial lists are
-   covered by the correspondence (instrumented value types) and the oracle, and erase on
-   VaryingSize lists of non-trivial types is the recorded known finding. *)
+   Proved: what every operation constructs and destroys, for every parameter list
+   (C06_emplace_*, C06_destruct_*); the step invariant "held objects -> held objects" and the
+   balance over a whole life - construction, ANY valid history, destruction - for every list
+   whose value types are non-trivially constructible exactly when non-trivially destructible
+   (C06_step_turns_held_objects_into_held_objects, C06_whole_life_objects_balanced); the objects
+   of a ContiguousElement (C06_element_*).
+   PARTIAL: erase with elements behind the erased ones on VaryingSize lists of non-trivial types
+   (the recorded finding when source and target overlap), a no-duplicates statement over the
+   whole event log, copy / move between vectors: correspondence (instrumented value types,
+   registry) and the live-object oracle. *)
 From Coq Require Import ZArith List Bool.
 From Coq Require Import Permutation.
 From Cntgs Require Import Base Layout Mem Vector Spec Rep LifeThm StableThm NtRefine LifeHist Proxy Elem ElemThm ElemLife.
